@@ -187,7 +187,11 @@ func solveAll(results []*FuncResult, outDir string, timeoutS int, both bool, par
 			file := filepath.Join(outDir, fileSafe(j.o.Name)+".smt2")
 			os.WriteFile(file, []byte(text), 0o644)
 			j.o.File = file
-			win, all := solveOne(file, timeoutS, both)
+			to := timeoutS
+			if j.o.TimeoutS > 0 {
+				to = j.o.TimeoutS
+			}
+			win, all := solveOne(file, to, both)
 			j.o.Result = win.result
 			j.o.Backend = win.backend
 			j.o.Ms = win.ms
